@@ -88,10 +88,12 @@ def _newest_mtime(paths: Iterable[Path]) -> float:
     return m
 
 
-def ensure_built(jobs: int = NPROC) -> Tuple[bool, str]:
+def ensure_built(jobs: int = NPROC, need: Sequence[str] = ()) -> Tuple[bool, str]:
     """make the Coq project, (re-)extract and compile the runner if anything is newer.
 
-    Returns (ok, log)."""
+    With `need` (make targets such as "Properties/C16.vo") a failure elsewhere in the
+    development is tolerated as long as those targets and the dispatcher build; with an
+    empty `need` (setup) everything must build.  Returns (ok, log)."""
     out = []
     with build_lock():
         for d in (EXTRACT, TMP, REPLAY, EVIDENCE):
@@ -102,10 +104,15 @@ def ensure_built(jobs: int = NPROC) -> Tuple[bool, str]:
             out.append(o)
             if rc != 0:
                 return False, "\n".join(out)
-        rc, o = _run(["make", f"-j{jobs}"], cwd=COQ, timeout=3000)
+        rc, o = _run(["make", "-k", f"-j{jobs}"], cwd=COQ, timeout=3000)
         out.append(o[-6000:])
         if rc != 0:
-            return False, "\n".join(out)
+            if not need:
+                return False, "\n".join(out)
+            rc, o = _run(["make", f"-j{jobs}", "Extract/Dispatch.vo", *need], cwd=COQ, timeout=3000)
+            out.append(o[-3000:])
+            if rc != 0:
+                return False, "\n".join(out)
         disp_vo = COQ / "Extract" / "Dispatch.vo"
         srcs = [disp_vo, COQ / "Extract" / "Run.v", VERIF / "runner" / "mrun.ml"]
         if not MRUN.exists() or MRUN.stat().st_mtime < _newest_mtime(srcs):
@@ -512,7 +519,7 @@ class Ctx:
 
     # ---- proof part
     def check_proofs(self) -> Dict[str, Any]:
-        ok, blog = ensure_built()
+        ok, blog = ensure_built(need=[f"Properties/{self.pid}.vo"])
         if not ok:
             self.proof = {"ok": False, "problems": ["build failed: " + blog[-2000:]], "obligations": 0,
                           "discharged": 0, "theorems": [], "axioms": {}}
